@@ -436,18 +436,16 @@ class Statement(TokenList):
             return token.normalized
 
         elif token.ttype == T.Keyword.CTE:
-            # The WITH keyword should be followed by either an Identifier or
-            # an IdentifierList containing the CTE definitions;  the actual
-            # DML keyword (e.g. SELECT, INSERT) will follow next.
+            # The WITH keyword is followed by the CTE definitions; their
+            # bodies are parenthesized, so the first DML keyword (e.g.
+            # SELECT, INSERT) on this level is the one of the statement.
+            # The definitions need not be an Identifier or IdentifierList:
+            # a CTE named like a keyword ("data", "result") stays ungrouped.
             tidx = self.token_index(token)
             while tidx is not None:
                 tidx, token = self.token_next(tidx, skip_ws=True)
-                if isinstance(token, (Identifier, IdentifierList)):
-                    tidx, token = self.token_next(tidx, skip_ws=True)
-
-                    if token is not None \
-                            and token.ttype == T.Keyword.DML:
-                        return token.normalized
+                if token is not None and token.ttype == T.Keyword.DML:
+                    return token.normalized
 
         # Hmm, probably invalid syntax, so return unknown.
         return 'UNKNOWN'
